@@ -806,10 +806,23 @@ class RGraph:
             for iid in rbuild.rcommits.keys()
         }
 
+        # commits reachable from the head of this branch are merged even if
+        # they are not included into any build of this branch (it happens when
+        # the head of the branch is located inside one of previous branches)
+        reachable_from_head = set()
+        rcommits_to_check = list(result_accumdata.rc_parents)
+        while rcommits_to_check:
+            rcommit = rcommits_to_check.pop()
+            if rcommit.iid not in reachable_from_head:
+                reachable_from_head.add(rcommit.iid)
+                rcommits_to_check.extend(rcommit.parents)
+
         not_merged_rcommits = {
             iid: rcommit
             for iid, rcommit in all_commits_prev_branch.items()
-            if rcommit.is_explicit and iid not in all_commits_in_this_branch
+            if (rcommit.is_explicit
+                and iid not in all_commits_in_this_branch
+                and iid not in reachable_from_head)
         }
 
         # Get info about latest build in current branch - it will be a parent build
